@@ -2,6 +2,7 @@ import MuscleModel.Conc.ProofsStep
 import MuscleModel.Conc.ProofsCtl
 import MuscleModel.Conc.ProofsLiveInv
 import MuscleModel.Conc.ProofsCounts
+import MuscleModel.Conc.ProofsBounded
 
 /-!
 # C18 — The reader/writer mutex excludes correctly and never strands a compliant thread
@@ -175,15 +176,59 @@ theorem timed_returns {c c1 : Cfg} {t : Tid} {o : Option St} (hctx : (c.th t).ct
     ∃ c2, machine.step c1 (.run t) = some (c2, some .timedOut) :=
   timeout_then_returns hctx h
 
-/-- Finding **F13** (open, TIMED variant; the reason `timed_returns` excludes the upgrade path): a timed `LockReadWrite()`
-issued by a read-lock holder can, after its time-out has fired, end up parked in an *untimed* `Wait()` with nothing
-pending, because the upgrade path re-takes the read locks with `LockReadOnly()`.  Reachable in the model (and reproduced
-on the real code by `corpus/C18/rw-known-F13.ops`). -/
+/-! ### Which try/timed calls are bounded, and which one is not (finding F13, timed variant — open)
+
+The model has no clock, so "returns by its deadline" is rendered as: *the calling thread never depends on another thread
+to get out of the call* — in every reachable configuration it has an enabled event of its own (a step, or the time-out of
+its timed wait), and after the time-out event a plain call returns in its next step (`timed_returns`).  The three
+theorems below say exactly which calls have this property and that the single exception is real. -/
+
+/-- **Bounded calls.**  In every reachable configuration, a thread inside `TryLockReadOnly/ReadWrite()` or a timed
+`LockReadOnly/ReadWrite()` — including a timed read→write upgrade while it drops its read locks, while it waits for the
+write lock, and while it re-takes its read locks after the upgrade was GRANTED — has an enabled event of its own, unless
+it is in the re-take stage of an upgrade whose write-lock attempt FAILED. -/
+theorem try_timed_calls_bounded {prefW progs c} (h : Reachable prefW progs c) (t : Tid) (hunf : (c.th t).pc ≠ .done)
+    (hcall : NonBlockingCall (c.th t)) (hnot : ¬ InFailedRetake (c.th t)) :
+    (∃ c' o, machine.step c (.run t) = some (c', o)) ∨ (∃ c' o, machine.step c (.timeout t) = some (c', o)) :=
+  nonblocking_call_proceeds (reach_mxInv (init_mxInv prefW progs) h) (reach_ctlInv prefW progs h)
+    (reach_countInv prefW progs h) (reach_modeInv prefW progs h) hunf hcall hnot
+
+/-- **The only unbounded call.**  If, in a reachable configuration, a thread inside a try/timed acquisition has NO enabled
+event of its own, then the call is a *timed* `LockReadWrite()` issued as a read→write upgrade, its write-lock attempt
+failed (`ret ≠ ok`), and the thread is parked with nothing pending in the UNTIMED `Wait()` of the `LockReadOnly()` that
+re-takes its read locks (`LockReadWriteAux`, the loop after `lrwRet`). -/
+theorem only_failed_timed_upgrade_is_unbounded {prefW progs c} (h : Reachable prefW progs c) (t : Tid)
+    (hunf : (c.th t).pc ≠ .done) (hcall : NonBlockingCall (c.th t))
+    (hstuck : machine.step c (.run t) = none ∧ machine.step c (.timeout t) = none) :
+    ∃ u k ret, (c.th t).ctx = [u] ∧ u.stage = .retake k ret ∧ ret ≠ .ok ∧ u.m = .timed ∧
+      (c.th t).cur = .lockW .timed ∧ (c.th t).pc = .rWait .block ∧ c.mx.pend t = 0 :=
+  stuck_call_is_failed_timed_upgrade (reach_mxInv (init_mxInv prefW progs) h) (reach_ctlInv prefW progs h)
+    (reach_countInv prefW progs h) (reach_modeInv prefW progs h) hunf hcall hstuck
+
+/-- Finding **F13** (open, TIMED variant): the exception is real.  Witness schedule `0 1 0 0 2 0 T0 0 0` for the programs
+`R q u | R u | W v` with writer preference: thread 0 (a reader) asks for a timed upgrade while reader 1 executes, drops
+its read lock, queues behind writer 2, its time-out fires, `LockReadWriteAux` returns `B_TIMED_OUT` internally, and the
+untimed `LockReadOnly()` that must restore the read lock parks behind the waiting writer: thread 0 is inside a timed call,
+its time-out is spent (`retake 1 timedOut`), and it has NO enabled event — when it returns depends only on how long
+threads 1 and 2 keep the lock.  Reproduced on the real code by `corpus/C18/rw-known-F13.ops`.  A repair has to keep the
+read locks while waiting for the upgrade (a different upgrade protocol); see the finding's entry. -/
 theorem f13_timed_upgrade_blocks :
     ∃ c, Reachable true [[.lockR .block, .lockW .timed, .unlockR], [.lockR .block, .unlockR], [.lockW .block, .unlockW]] c ∧
-      (c.th 0).cur = .lockW .timed ∧ (c.th 0).pc = .rWait .block ∧ c.mx.pend 0 = 0 :=
+      (c.th 0).cur = .lockW .timed ∧ (c.th 0).pc = .rWait .block ∧ c.mx.pend 0 = 0 ∧
+      (c.th 0).ctx = [{ n := 1, m := .timed, stage := .retake 1 .timedOut }] ∧
+      (machine.step c (.run 0)).isNone = true ∧ (machine.step c (.timeout 0)).isNone = true ∧
+      c.mx.ro 0 = 0 ∧ (c.th 0).hr = 1 :=
   ⟨(machine.runSched (Cfg.init true [[.lockR .block, .lockW .timed, .unlockR], [.lockR .block, .unlockR], [.lockW .block, .unlockW]])
       [.run 0, .run 1, .run 0, .run 0, .run 2, .run 0, .timeout 0, .run 0, .run 0]).1,
+   machine.reach_runSched Machine.Reach.init _, by decide, by decide, by decide, by decide, by decide, by decide, by decide, by decide⟩
+
+/-- non-vacuity of `try_timed_calls_bounded` inside an upgrade: the same programs one event earlier — thread 0 waits (timed)
+for the write lock inside its upgrade, nothing pending: its time-out is enabled -/
+example : ∃ c, Reachable true [[.lockR .block, .lockW .timed, .unlockR], [.lockR .block, .unlockR], [.lockW .block, .unlockW]] c ∧
+    (c.th 0).pc = .wWait .timed ∧ (c.th 0).ctx = [{ n := 1, m := .timed, stage := .lock }] ∧
+    (machine.step c (.timeout 0)).isSome = true :=
+  ⟨(machine.runSched (Cfg.init true [[.lockR .block, .lockW .timed, .unlockR], [.lockR .block, .unlockR], [.lockW .block, .unlockW]])
+      [.run 0, .run 1, .run 0, .run 0, .run 2, .run 0]).1,
    machine.reach_runSched Machine.Reach.init _, by decide, by decide, by decide⟩
 
 end Muscle.Props.C18
